@@ -596,7 +596,7 @@ func (c *checker) literalStream(m mode, payload []byte) {
 
 // ---- generators ---------------------------------------------------------------
 
-var strClasses = []string{"empty", "atom", "space", "quote", "backslash", "nul", "cr", "lf", "crlf-cmd", "lit-lookalike", "utf8", "badutf8", "mixed", "nil-word", "paren"}
+var strClasses = []string{"ends-backslash", "ends-quote", "only-specials", "empty", "atom", "space", "quote", "backslash", "nul", "cr", "lf", "crlf-cmd", "lit-lookalike", "utf8", "badutf8", "mixed", "nil-word", "paren"}
 
 func genString(rng *rand.Rand, class string, n int) string {
 	if n == 0 || class == "empty" {
@@ -628,6 +628,12 @@ func genString(rng *rand.Rand, class string, n int) string {
 		unit = "a\xff\xc3(\x80"
 	case "nil-word":
 		return "NIL"
+	case "ends-backslash":
+		return strings.Repeat("x", n-1) + "\\"
+	case "ends-quote":
+		return strings.Repeat("y", n-1) + "\""
+	case "only-specials":
+		return strings.Repeat("\\\"", n/2+1)[:n]
 	case "paren":
 		unit = "(a) [b] %*"
 	default:
